@@ -251,7 +251,7 @@ func sanitizeSQLiteColumnType(colType string) (string, error) {
 
 	upperType := strings.ToUpper(strings.TrimSpace(colType))
 
-	if !sqliteColumnTypePattern.MatchString(colType) {
+	if !sqliteColumnTypePattern.MatchString(colType) || hasTopLevelComma(colType) {
 		return "", fmt.Errorf("invalid column type: %s", colType)
 	}
 
